@@ -7,7 +7,7 @@ SPEC = {
         "k*10+3": "send k: number of resolver calls differs from the two-phase machine (1 after Ok, 0 after a rejection)",
     },
     "corr_name": "Args.Model (vtj, apply_defaults, parse, prepare) vs graphql.Parse / PrepareQuery / Execute with reflect-built argument structs",
-    "coq_modules": ["Args.Model", "Args.Spec", "Args.Codec", "Args.Proofs", "Args.ProofsReject", "Args.ProofsInst", "Args.ProofsSubst", "Args.ProofsTotal", "Gen.ArgParsers", "Args.Table"],
+    "coq_modules": ["Args.Model", "Args.Spec", "Args.Codec", "Args.Proofs", "Args.ProofsReject", "Args.ProofsInst", "Args.ProofsSubst", "Args.ProofsTotal", "Args.ProofsDoc", "Gen.ArgParsers", "Args.Table"],
     "harness_timeout": {"quick": 600, "thorough": 3000},
     "trusted_base": [
         "Coq 8.16.1 kernel and vm_compute (no native_compute); Print Assumptions: closed under the global context",
